@@ -219,6 +219,20 @@ PROPS = {
             'generator executed eagerly to the list of yielded values',
         ],
     },
+    'C09': {
+        'contract_modules': ['c09_master'],
+        'replay': 'c09.py',
+        'functions': ['treadmill.scheduler.master:Master._placement_data', 'treadmill.scheduler.master:Master.init_schedule',
+                      'treadmill.scheduler.master:Master._unschedule_evicted', 'treadmill.scheduler.master:Master.reschedule'],
+        'assumptions': [],
+    },
+    'C10': {
+        'contract_modules': ['c09_master'],
+        'functions': ['treadmill.scheduler.master:Master.init_schedule',
+                      'treadmill.scheduler.master:Master._unschedule_evicted', 'treadmill.scheduler.master:Master.reschedule'],
+        'replay': 'c09.py',
+        'assumptions': [],
+    },
     'C12': {
         'contract_modules': ['c12_eventmgr'],
         'functions': ['treadmill.eventmgr:EventMgr._cache', 'treadmill.eventmgr:EventMgr._synchronize'],
